@@ -9,15 +9,15 @@ tmpd = tempfile.mkdtemp(prefix="seedkeep-")
 for f in ("demo_test.go", "meta.json"):
     shutil.copy(f"{src}/{f}", tmpd)
 shutil.copy(patch, tmpd + "/patch.diff")
-r = subprocess.run(["python3", "/verif/tools/seedconfirm.py", tmpd], capture_output=True, text=True)
+r = subprocess.run(["python3", "/verif/tools/seedconfirm.py", tmpd], capture_output=True, text=True, errors="replace")
 try:
     conf = json.loads(r.stdout[r.stdout.index("{"):])
 except Exception:
     conf = {"confirmed": False, "raw": r.stdout[-500:] + r.stderr[-500:]}
-det = subprocess.run(["/verif/tools/seedcheck.sh", tmpd + "/patch.diff", cid, "quick"], capture_output=True, text=True).stdout.strip()
+det = subprocess.run(["/verif/tools/seedcheck.sh", tmpd + "/patch.diff", cid, "quick"], capture_output=True, text=True, errors="replace").stdout.strip()
 meta = json.load(open(tmpd + "/meta.json"))
 meta["confirmation"] = {k: conf.get(k) for k in ("applies", "stable_tests_pass", "demo_fails_with_change", "demo_passes_without", "confirmed")}
-meta["confirmed_on_repo_head"] = subprocess.run("git -C /repo rev-parse --short HEAD", shell=True, capture_output=True, text=True).stdout.strip()
+meta["confirmed_on_repo_head"] = subprocess.run("git -C /repo rev-parse --short HEAD", shell=True, capture_output=True, text=True, errors="replace").stdout.strip()
 meta["check_result"] = det[:600]
 meta["what_i_ran"] = "tools/seedconfirm.py (scratch worktree of /repo HEAD: git apply, pinned stable tests of BASELINE.json, demo with and without the change) and tools/seedcheck.sh (git apply in /repo, ./run %s quick, git reset)" % cid
 if len(sys.argv) > 3:
